@@ -21,7 +21,7 @@ Fixpoint triples (l : list Z) : list (Z * Z * Z) :=
    first line = how the object is made:
      [0; d; ms] C(d, ms) | [1; d; ms] C(d, ms, init_dt_unix_stamp=False) | [2] empty() |
      [3] empty(False) | 4 :: octets unpack(octets) | [5; unix_days; ms] from_unix_days |
-     [6; ud; sod; us] from_datetime
+     [6; ud; sod; us] from_datetime | [7; ud; sod; us] from_date_time (deprecated alias)
    ops: 1 :: octets read_from_raw(bytes) | 2 :: octets read_from_raw(bytearray), the caller's
      buffer overwritten afterwards | [3; d; s; us] += timedelta | [4] read_from_raw(self.pack())
      | [5] pack()
@@ -41,6 +41,7 @@ Definition cobj_make (l : list Z) : res cobj :=
   | 4 :: b => cobj_unpack b
   | 5 :: ud :: ms :: _ => Ok (cobj_from_unix_days ud ms)
   | 6 :: ud :: sod :: us :: _ => Ok (cobj_from_datetime ud sod us)
+  | 7 :: ud :: sod :: us :: _ => Ok (cobj_from_datetime ud sod us)   (* deprecated alias from_date_time *)
   | _ => Err EOther
   end.
 Definition cobj_op_of (l : list Z) : option cobj_op :=
@@ -94,6 +95,9 @@ Definition run_cds (op : Z) (a : args) : args :=
            | Ok o => ([0] :: cobj_views o) ++ cobj_history o (tl a)
            | Err e => ret_err e
            end
+  (* now() / from_now() / from_current_time(): clock dependent; the adapter evaluates the
+     invariants (day and millisecond are those of the clock reading, views are the reading) *)
+  | 419 => [[0]; [1; 1; 1]]
   (* Spec side *)
   | 450 => [[0]; cds_layout (cds_of (lst 0 a))]
   | 451 => [[0]; [cds_instant_ms (cds_of (lst 0 a))]]
